@@ -128,8 +128,8 @@ func (i *Interpreter) eval(expr ast.Expr, env *environment.Environment, isRepl b
 		properties := make(map[string]interface{})
 
 		// initialisers run in source order, not in Go's random map order
-		for _, key := range e.Keys {
-			value, signal := i.eval(e.Properties[key], env, isRepl)
+		for idx, key := range e.Keys {
+			value, signal := i.eval(e.Values[idx], env, isRepl)
 			if signal.Type != ControlFlowNone {
 				return nil, signal
 			}
